@@ -553,6 +553,143 @@ def scale_regimes(R, rng, kind, n):
                             case, {"scale": float(c), "impl": v, "law": want}, size=n)
 
 
+SCALES32 = [F(1, 10 ** 9), F(1, 10 ** 6), F(1, 10 ** 3), F(1), F(10 ** 3), F(10 ** 6), F(10 ** 9)]
+
+
+def _held32(xs):
+    """the numbers a float32 tensor holds for these values, as exact Fractions"""
+    import torch
+
+    return [F(float(v)) for v in torch.tensor([float(x) for x in xs], dtype=torch.float64).to(torch.float32).tolist()]
+
+
+def scale_regimes_single(R, rng, kind, n):
+    """the scale regimes in SINGLE precision: every class with float32 population sizes, heights, grid and growth at time
+    units 1e-9 … 1e9 (float32 holds 1e-38 … 1e38: a population size of 1e-9 is an ordinary number there, far above
+    finfo.tiny and below finfo.eps = 1.19e-7). Reference: the Kingman oracle on exactly the numbers the float32 tensors hold;
+    tolerance 2e-5 relative to the terms of the density; the scaling law between the scales."""
+    import torch
+
+    ck = R.ck
+    base = make_case(rng, kind, n, flat=False)
+    if kind == "exponential":
+        root = max(base["coal"])
+        base["growth"] = F(rng.choice([-1, 1]) * rng.randint(1, 24), 8) / max(root, F(1, 8))
+    cls = type(distribution(base)).__name__
+    vals = {}
+    for c in SCALES32:
+        sc_case = _scaled(base, c)
+        case = dict(sc_case, samp=_held32(sc_case["samp"]), coal=_held32(sc_case["coal"]), thetas=_held32(sc_case["thetas"]))
+        if "grid" in case:
+            case["grid"] = _held32(sc_case["grid"])
+        if "growth" in case:
+            case["growth"] = _held32([sc_case["growth"]])[0]
+        case["float32"] = True
+        if len(set(case["coal"])) < len(case["coal"]) or ("grid" in case and any(g in case["coal"] for g in case["grid"])):
+            continue
+        ck.case(key=("scale32", kind, n, float(c), tuple(base["coal"]), tuple(base["thetas"])), bucket=f"scale-float32/{kind}/c={float(c):g}")
+        try:
+            import torchtree.evolution.coalescent as C
+
+            f32 = lambda xs: T(xs).to(torch.float32)  # noqa: E731  (the values are float32-representable: exact)
+            th = f32(case["thetas"])
+            d = {"constant": lambda: C.ConstantCoalescent(th), "skyride": lambda: C.PiecewiseConstantCoalescent(th),
+                 "skygrid": lambda: C.PiecewiseConstantCoalescentGrid(th, f32(case["grid"])),
+                 "linear": lambda: C.PiecewiseLinearCoalescentGrid(th, f32(case["grid"])),
+                 "exponential": lambda: C.ExponentialCoalescent(th, f32([case["growth"]]))}[kind]()
+            v = _scalar(d.log_prob(f32(case["samp"] + case["coal"])))
+        except Exception as e:
+            R.violation(f"{cls}.log_prob:scale-float32:raises", f"{cls}.log_prob (float32) raises at time unit x{float(c):g}: {type(e).__name__}: {str(e)[:120]}", case,
+                        {"scale": float(c)}, size=n)
+            continue
+        o, sc = oracle_value(case)
+        if v is None or not close(v, o, 2e-5, sc):
+            R.violation(f"{cls}.log_prob:scale-float32:value",
+                        f"{cls}.log_prob in float32 with times and sizes x{float(c):g} gives {v!r}; Kingman density of the held values {o!r} (n={n})", case,
+                        {"scale": float(c), "impl": v, "oracle": o}, size=n)
+            continue
+        vals[c] = (v, sc, case)
+    if F(1) in vals:
+        v1, s1, _ = vals[F(1)]
+        for c, (v, sc, case) in vals.items():
+            want = v1 - (n - 1) * math.log(float(c))
+            if not close(v, want, 5e-5, s1 + (n - 1) * abs(math.log(float(c)))):
+                R.violation(f"{cls}.log_prob:scale-float32:law",
+                            f"{cls} (float32): scaling times and sizes by {float(c):g} changes the value to {v!r}; the scaling law gives {want!r}", case,
+                            {"scale": float(c), "impl": v, "law": want}, size=n)
+
+
+def json_spellings(R, rng, kind, n):
+    """one model, every SPELLING of its grid in JSON, through the data route (`times` / `intervals` + `events`): inline list of
+    floats / of integer literals, a Parameter with float literals (with and without dtype: float32 by default), with integer
+    literals (int64), integer literals + dtype, `arange`, a reference to a Parameter defined beforehand. A yearly grid is
+    naturally written 1, 2, 4: all spellings describe the same N(t) and must give the Kingman density of the times AS WRITTEN
+    (non-integer dyadic times)"""
+    import copy
+
+    import torchtree.evolution.coalescent as C
+    from torchtree.core.utils import process_object
+
+    ck = R.ck
+    ctor = {"skygrid": C.PiecewiseConstantCoalescentGridModel, "linear": C.PiecewiseLinearCoalescentGridModel}[kind]
+    for consecutive in (False, True):
+        for _try in range(50):
+            g = G.genealogy(rng, n, q=3)
+            root = int(max(g["coal"])) + 1
+            if consecutive:
+                a = rng.randint(1, max(1, root // 2))
+                grid = list(range(a, a + rng.randint(1, 4)))
+            else:
+                grid = sorted(rng.sample(range(1, root + 3), min(rng.randint(1, 4), root + 2)))
+            if not any(F(x) in g["coal"] for x in grid) and any(t.denominator > 1 for t in g["samp"] + g["coal"]):
+                break
+        else:
+            continue
+        case = make_case(rng, kind, n, gen=g, flat=False)
+        case["grid"] = [F(x) for x in grid]
+        case["thetas"] = [G.pow2(rng) for _ in range(len(grid) + 1)]
+        if kind == "linear":
+            for i in range(1, len(case["thetas"])):
+                while case["thetas"][i] == case["thetas"][i - 1]:
+                    case["thetas"][i] = G.pow2(rng)
+        samp, coal = case["samp"], case["coal"]
+        o, scale = oracle_value(case)
+        ev = sorted([(t, 1) for t in samp] + [(t, 0) for t in coal], key=lambda p: (p[0], -p[1]))
+        fl = [float(x) for x in grid]
+        spellings = {
+            "list-of-floats": fl, "list-of-integer-literals": list(grid),
+            "parameter/floats/dtype=float64": {"id": "grid", "type": "Parameter", "tensor": fl, "dtype": "torch.float64"},
+            "parameter/floats/no-dtype": {"id": "grid", "type": "Parameter", "tensor": fl},
+            "parameter/integer-literals": {"id": "grid", "type": "Parameter", "tensor": list(grid)},
+            "parameter/integer-literals/dtype=float64": {"id": "grid", "type": "Parameter", "tensor": list(grid), "dtype": "torch.float64"},
+            "parameter/integer-literals/full-type": {"id": "grid", "type": "torchtree.Parameter", "tensor": list(grid)},
+            "reference-to-integer-parameter": "grid",
+        }
+        if consecutive:
+            spellings["parameter/arange"] = {"id": "grid", "type": "Parameter", "arange": [grid[0], grid[-1] + 1]}
+        datas = {"times": {"times": [float(t) for t, _ in ev], "events": [e for _, e in ev]},
+                 "intervals": {"intervals": [float(b[0] - a[0]) for a, b in zip(ev, ev[1:])], "events": [e for _, e in ev]}}
+        for dname, data in datas.items():
+            for sname, gspell in spellings.items():
+                js = {"id": "coalescent", "type": ctor.__name__,
+                      "theta": {"id": "theta", "type": "Parameter", "tensor": [float(x) for x in case["thetas"]], "dtype": "torch.float64"},
+                      "grid": copy.deepcopy(gspell), **copy.deepcopy(data)}
+                ck.case(key=("json-spelling", kind, n, dname, sname, tuple(coal), tuple(grid)), bucket=f"json-spelling/{kind}/{dname}/{sname}")
+                try:
+                    dic = {}
+                    if gspell == "grid":
+                        process_object({"id": "grid", "type": "Parameter", "tensor": list(grid)}, dic)
+                    v = _scalar(ctor.from_json(copy.deepcopy(js), dic)())
+                except Exception as e:
+                    R.violation(f"{ctor.__name__}.from_json:grid-spelling:raises", f"{ctor.__name__}.from_json ({dname}, grid spelled as {sname}) raises "
+                                f"{type(e).__name__}: {str(e)[:120]}", case, {"json": js, "spelling": sname}, size=n)
+                    continue
+                if v is None or not close(v, o, 1e-9, scale):
+                    R.violation(f"{ctor.__name__}.from_json:grid-spelling:value",
+                                f"{ctor.__name__}.from_json ({dname}, grid {grid} spelled as {sname}) evaluates to {v!r}; Kingman density of the described model {o!r}",
+                                case, {"json": js, "spelling": sname, "impl": v, "oracle": o}, size=n)
+
+
 def near_special(R, rng, n):
     """guards at "special" values compared against the EXACT value, not a tolerance: piecewise-linear population sizes
     whose neighbouring knots differ by a relative 2^-52 … 2^-20 (the flat-segment branch is `difference != 0`), an
@@ -702,6 +839,12 @@ def run(R, rng, ck):
             R.guard("scale_regimes", scale_regimes, R, rng, kind, n)
             R.guard("time_origin", time_origin, R, rng, kind, n)
         R.guard("near_special", near_special, R, rng, n)
+    for n in ([2, 4, 7] if not ck.thorough() else [2, 3, 4, 5, 7, 12, 20]):
+        for kind in KINDS:
+            R.guard("scale_regimes_single", scale_regimes_single, R, rng, kind, n)
+    for n in ([2, 3, 6] if not ck.thorough() else [2, 3, 4, 6, 9, 15]):
+        for kind in ("skygrid", "linear"):
+            R.guard("json_spellings", json_spellings, R, rng, kind, n)
     for kind in KINDS + ("softgrid", "softtemp"):
         R.guard("dtype_regimes", dtype_regimes, R, rng, kind, rng.choice([3, 4, 6]))
     for kind in KINDS:
